@@ -57,6 +57,9 @@ var monitorRegistry = map[string]func() Monitor{
 	"C10": func() Monitor { return NewMonC10() },
 	"C11": func() Monitor { return NewMonC11() },
 	"C14": func() Monitor { return NewMonC14() },
+	"C16": func() Monitor { return NewMonC16() },
+	"C17": func() Monitor { return NewMonC17() },
+	"C20": func() Monitor { return NewMonC20() },
 	"C05/C01": func() Monitor { return &relabel{inner: NewMonC01(), prop: "C05", afterCrash: true} },
 	"C05/C02": func() Monitor { return &relabel{inner: NewMonC02(), prop: "C05", afterCrash: true} },
 	"C05/C03": func() Monitor { return &relabel{inner: NewMonC03(), prop: "C05", afterCrash: true} },
@@ -457,4 +460,39 @@ func knownSummary(known []KnownFinding, id string) string {
 		}
 	}
 	return ""
+}
+
+// ReplayMain re-executes a replay artefact on fresh objects, without the explorer.
+func ReplayMain(path string, verbose bool) int {
+	b, err := os.ReadFile(path)
+	if err != nil {
+		fmt.Println(err)
+		return 2
+	}
+	var rf ReplayFile
+	if err := json.Unmarshal(b, &rf); err != nil {
+		fmt.Println(err)
+		return 2
+	}
+	j := rf.Job
+	mf := MonitorsByName(j.Mons)
+	var trace []string
+	if j.Strategy == "ddfs" {
+		trace = DescribeChoices(j.Sc, mf, rf.Path)
+	} else {
+		trace = Describe(j.Sc, mf, rf.Path)
+	}
+	for _, l := range trace {
+		fmt.Println(l)
+	}
+	if j.Suffix && verbose {
+		ConvergeTrace = func(s string) { fmt.Println("  suffix:", s) }
+	}
+	f := &Found{V: &Violation{Prop: rf.Property, Oracle: rf.Oracle, Detail: rf.Detail}, Path: rf.Path}
+	if reproduces(j, f) {
+		fmt.Printf("REPRODUCED %s/%s: %s\n", rf.Property, rf.Oracle, rf.Detail)
+		return 1
+	}
+	fmt.Println("not reproduced on the current tree")
+	return 0
 }
